@@ -7,6 +7,7 @@ From AQ Require Import lib.Base lib.Tok model.RangeSet model.RecBase model.Pacer
   proofs.RecoveryLemmas proofs.RecoveryProofs proofs.RecoveryPres proofs.RenoProofs proofs.CubicProofs
   proofs.C08Theorems proofs.FlightBudget proofs.CubicFloor.
 From AQ Require gen.C13Consts model.Builder proofs.BuilderProofs proofs.BuilderFlight proofs.BuilderFlightAE.
+From AQ Require gen.C08Probe model.ProbeBudget proofs.ProbeBudgetProofs proofs.ProbeFlight.
 
 (* bytes_in_flight = sum of sent_bytes over tracked in-flight packets of all spaces;
    ack_eliciting_in_flight = number of tracked ack-eliciting packets, per space; keys unique *)
@@ -233,3 +234,67 @@ Theorem flight_budget_reno_and_cubic :
      cb_bif (r_cc (register (cubic_cc F) sp now st (built c pn ops))) <= Z.max (cb_cwnd (r_cc st)) (cb_bif (r_cc st))).
 Proof. exact flight_budget_reno_cubic. Qed.
 Print Assumptions flight_budget_reno_and_cubic.
+
+(* ---------- the probe allowance: ONE probe datagram per timeout (model/ProbeBudget.v over gen/C08Probe.v) ---------- *)
+
+(* where _probe_pending is set / read / cleared in the checked tree, as generated from its AST *)
+Theorem probe_sites_pinned :
+  C08Probe.send_probe_body = [C08Probe.SSet] /\
+  C08Probe.dts_budget_guard = C08Probe.GAnd (C08Probe.GAtom C08Probe.APending) (C08Probe.GAtom C08Probe.ALowBudget) /\
+  C08Probe.dts_budget_body = [C08Probe.SRaiseBudget] /\
+  C08Probe.app_probe_guard = C08Probe.GAtom C08Probe.APending /\
+  C08Probe.app_probe_body = [C08Probe.SPing; C08Probe.SClear] /\
+  ProbeBudget.has_break C08Probe.app_before_start = true /\
+  ProbeBudget.nonempty C08Probe.app_writers_before = true /\ ProbeBudget.nonempty C08Probe.app_writers_after = true /\
+  C08Probe.hs_order = [1; 2; 3; 5; 9] /\
+  C08Probe.hs_crypto_guard = C08Probe.GAtom C08Probe.ACryptoWritten /\ C08Probe.hs_crypto_body = [C08Probe.SClear] /\
+  C08Probe.hs_probe_guard =
+    C08Probe.GAnd (C08Probe.GAtom C08Probe.APending)
+      (C08Probe.GAnd (C08Probe.GNot (C08Probe.GAtom C08Probe.AHandshakeComplete))
+         (C08Probe.GOr (C08Probe.GAtom C08Probe.AEpochHandshake) (C08Probe.GNot (C08Probe.GAtom C08Probe.AHandshakeKeys)))) /\
+  C08Probe.hs_probe_body = [C08Probe.SPing; C08Probe.SClear] /\ C08Probe.oneshot_sites = 2.
+Proof. exact ProbeBudgetProofs.probe_sites_pinned_lemma. Qed.
+Print Assumptions probe_sites_pinned.
+
+(* in every history of timeouts / early retransmissions / other calls / datagrams_to_send calls with any decisions: the calls
+   whose budget was raised by the probe rule and that wrote an ack-eliciting frame (calls cut by QuicPacketBuilderStop at or ahead
+   of the probe PING after an ack-eliciting frame excluded) are at most the send_probe grants = probe timeouts fired + at most
+   one early retransmission *)
+Theorem one_probe_per_timeout : forall h,
+  ProbeBudget.s_probes (ProbeBudget.run h) <= ProbeBudget.s_grants (ProbeBudget.run h) /\
+  ProbeBudget.s_grants (ProbeBudget.run h) = ProbeBudget.s_timeouts (ProbeBudget.run h) + b2z (ProbeBudget.s_cr (ProbeBudget.run h)) /\
+  ProbeBudget.s_grants (ProbeBudget.run h) <= ProbeBudget.s_timeouts (ProbeBudget.run h) + 1.
+Proof. exact ProbeBudgetProofs.one_probe_per_timeout_thm. Qed.
+Print Assumptions one_probe_per_timeout.
+
+(* without that exclusion the statement is FALSE for the tree as it is: one timeout, two raised calls that each wrote
+   ack-eliciting frames (candidate finding C08-F3) *)
+Theorem one_probe_per_timeout_refuted :
+  exists h, ProbeBudget.s_timeouts (ProbeBudget.run h) = 1 /\ ProbeBudget.s_grants (ProbeBudget.run h) = 1 /\
+            ProbeBudget.s_over (ProbeBudget.run h) = 2 /\ ProbeBudget.s_probes (ProbeBudget.run h) = 1.
+Proof. exact ProbeBudgetProofs.one_probe_per_timeout_refuted_thm. Qed.
+Print Assumptions one_probe_per_timeout_refuted.
+
+(* bytes: a call with the model's budget lifts the ledger above max(cwnd, bytes_in_flight) (read before the call) by at most
+   one datagram when the probe rule fired, by nothing otherwise (composition with flight_budget) *)
+Theorem probe_call_bytes :
+  forall (T C : Type) (cc : ccops T C), cc_spec cc ->
+  forall (st : rec (T:=T) (C:=C)) sp now c pn ops pending,
+  (forall t, (sp t < length (r_spaces st))%nat) ->
+  Builder.c_max_flight c
+    = Some (ProbeBudget.dts_max_flight pending (cc_cwnd cc (r_cc st)) (cc_bif cc (r_cc st)) (Builder.c_mds c)) ->
+  0 <= Builder.c_mds c ->
+  BuilderProofs.wf_cfg c -> BuilderProofs.crypto_fits c ->
+  BuilderFlight.fl_disciplined c (Builder.init_st c pn) ops = true ->
+  cc_bif cc (r_cc (register cc sp now st (built c pn ops)))
+    <= Z.max (cc_cwnd cc (r_cc st)) (cc_bif cc (r_cc st))
+       + (if pending && (cc_cwnd cc (r_cc st) - cc_bif cc (r_cc st) <? Builder.c_mds c) then Builder.c_mds c else 0).
+Proof. exact (@ProbeFlight.probe_call_bytes_thm). Qed.
+Print Assumptions probe_call_bytes.
+
+(* ... summed over the calls of a history: total excess <= max_datagram_size x number of raised calls *)
+Theorem probe_bytes_total : forall mds xs, 0 <= mds ->
+  Forall (fun x : bool * Z => snd x <= if fst x then mds else 0) xs ->
+  ProbeFlight.total_excess xs <= mds * ProbeFlight.raised_calls xs.
+Proof. exact ProbeFlight.probe_bytes_total_thm. Qed.
+Print Assumptions probe_bytes_total.
